@@ -779,9 +779,47 @@ Lemma string_with_colons s : unmarshal (p_string ++ c_colon :: s) = UOk KString 
 Proof. split; reflexivity. Qed.
 
 (* ---------- the refutation beyond comp_limit ---------- *)
-Definition big_den : positive := Z.to_pos (10 ^ 1233).
-Definition big_text : str := match marshal KFloat (VFloat (FRat 1 big_den)) with Some s => s | None => [] end.
-Definition big_back : value := match unmarshal big_text with UOk _ v => v | _ => VNil end.
+(* The witness is 1/10^1233.  Its Marshal text (1233 decimal digits) is never computed: the text is the one given by
+   print_pos_spec, the parser's reading of it is given by digits_of, and only the few big-number operations of
+   MakeFromLiteral/BinaryOp (one 512-bit rounding, one division) are evaluated.  (Computing the text needs ~2500 long
+   divisions by 10 of a 4096-bit number: minutes in coqc, the better part of an hour in coqchk, which has no VM.) *)
+Definition big_den : positive := Eval vm_compute in Z.to_pos (10 ^ 1233).
+
+Lemma big_den_val : Z.pos big_den = 10 ^ 1233.
+Proof. vm_compute. reflexivity. Qed.
+
+Lemma float_lit_digits p ds : digits_of 10 (N.pos p) ds -> float_lit ds = lit_core false (N.pos p) 0.
+Proof.
+  intros D. unfold float_lit. rewrite (strip_sign_digits _ _ D). cbv beta iota zeta.
+  assert (NP : strip_prefix [c_0; c_x; c_dot] ds = None).
+  { pose proof (digits_decchar _ _ D) as F.
+    destruct ds as [|a [|b r]]; cbn [strip_prefix]; [reflexivity|destruct (N.eqb c_0 a); reflexivity|].
+    destruct (N.eqb c_0 a); [|reflexivity].
+    inversion F as [|? ? _ F2]. inversion F2 as [|? ? Hb _]. unfold decchar in Hb.
+    rewrite N_eqb_false by (unfold c_x; lia). reflexivity. }
+  rewrite NP, (parse_digits_of _ _ _ D). reflexivity.
+Qed.
+
+(* unmarshalFloat on the text of ANY fraction n/d (d > 1, numerator below the limit): the denominator goes through
+   MakeFromLiteral's 512-bit rounding (lit_core) whatever its size *)
+Lemma unmarshal_float_rat_any n d s : print_rat n d = Some s -> d <> 1%positive -> Z.abs n < comp_limit ->
+  unmarshal_float s = qquo (QVal (FRat n 1)) (lit_core false (N.pos d) 0).
+Proof.
+  intros P D1 Hn. unfold print_rat in P.
+  destruct (print_Z_shape n) as [a [Ea Ha]].
+  assert (Fa : Forall decsigned a) by (apply (dec_shape_chars _ _ Ha)).
+  assert (Na : ~ In c_slash a) by (apply (notin_dec _ _ Fa); unfold c_slash, c_minus, decchar; lia).
+  assert (P' : bind (print_Z n) (fun a => bind (print_pos 10 d) (fun b => Some (a ++ c_slash :: b))) = Some s)
+    by (destruct d; try exact P; congruence).
+  rewrite Ea in P'. cbn [bind] in P'.
+  destruct (print_pos_spec 10 d ltac:(lia)) as [b [Eb Db]]. rewrite Eb in P'. cbn [bind] in P'.
+  injection P' as <-.
+  unfold unmarshal_float. rewrite (split_byte_first _ _ _ Na).
+  rewrite (float_lit_dec _ _ Ha Hn). rewrite (float_lit_digits _ _ Db). reflexivity.
+Qed.
+
+Definition big_q : qres := Eval vm_compute in qquo (QVal (FRat 1 1)) (lit_core false (N.pos big_den) 0).
+Definition big_back : value := match big_q with QVal f => VFloat f | _ => VNil end.
 
 Definition dfloat_eqb (a b : dval) : bool :=
   match a, b with
@@ -793,10 +831,19 @@ Lemma refuted_bigrat : exists n d s v',
   Z.gcd n (Z.pos d) = 1 /\ marshal KFloat (VFloat (FRat n d)) = Some s /\ unmarshal s = UOk KFloat v'
   /\ ~ same_value (VFloat (FRat n d)) v'.
 Proof.
-  exists 1, big_den, big_text, big_back.
-  split; [vm_compute; reflexivity|]. split; [vm_compute; reflexivity|]. split; [vm_compute; reflexivity|].
-  unfold same_value. intros H.
-  assert (B : dfloat_eqb (vden (VFloat (FRat 1 big_den))) (vden big_back) = false) by (vm_compute; reflexivity).
-  rewrite <- H in B. cbn [vden fden dfloat_eqb] in B.
-  rewrite Z.eqb_refl, Pos.eqb_refl in B. discriminate B.
+  assert (exists s, print_rat 1 big_den = Some s) as [s Es].
+  { unfold print_rat. destruct (print_Z_shape 1) as [a [Ea _]].
+    destruct (print_pos_spec 10 big_den ltac:(lia)) as [b [Eb _]].
+    destruct big_den; rewrite Ea; cbn [bind]; try rewrite Eb; cbn [bind]; eauto. }
+  exists 1, big_den, (p_float ++ c_colon :: s), big_back.
+  split; [apply Z.gcd_1_l|].
+  split; [cbn [marshal print_fval]; rewrite Es; reflexivity|].
+  split.
+  - change (unmarshal (p_float ++ c_colon :: s)) with (of_q KFloat (unmarshal_float s)).
+    rewrite (unmarshal_float_rat_any 1 big_den s Es); [|discriminate|simpl; exact comp_limit_pos].
+    vm_compute. reflexivity.
+  - unfold same_value. intros H.
+    assert (B : dfloat_eqb (vden (VFloat (FRat 1 big_den))) (vden big_back) = false) by (vm_compute; reflexivity).
+    rewrite <- H in B. cbn [vden fden dfloat_eqb] in B.
+    rewrite Z.eqb_refl, Pos.eqb_refl in B. discriminate B.
 Qed.
